@@ -1,0 +1,81 @@
+//go:build verif
+
+package pdnode_coord
+
+import "github.com/youzan/ZanRedisDB/cluster"
+
+// Exported wrappers of the unexported partition layout functions of place_driver.go.
+// Only compiled with the build tag "verif"; used by the verification harness to call the
+// layout code with plain data. No behaviour of its own.
+
+// VerifLoadItem mirrors the unexported loadItem.
+type VerifLoadItem struct {
+	Name        string
+	NameIndex   int
+	LeaderPids  []int
+	ReplicaPids []int
+}
+
+func verifFromLoadItem(l loadItem) VerifLoadItem {
+	return VerifLoadItem{Name: l.name, NameIndex: l.nameIndex, LeaderPids: l.leaderPids, ReplicaPids: l.replicaPids}
+}
+
+func verifToSortable(l [][]string) []SortableStrings {
+	out := make([]SortableStrings, 0, len(l))
+	for _, s := range l {
+		out = append(out, SortableStrings(s))
+	}
+	return out
+}
+
+func VerifGetNodeNameList(currentNodes map[string]cluster.NodeInfo) [][]string {
+	l := getNodeNameList(currentNodes)
+	out := make([][]string, 0, len(l))
+	for _, s := range l {
+		out = append(out, []string(s))
+	}
+	return out
+}
+
+func VerifGetRebalancedNamespacePartitions(ns string, partitionNum int, replica int,
+	oldPartitionNodes [][]string, currentNodes map[string]cluster.NodeInfo, balanceVer string) ([][]string, *cluster.CoordErr) {
+	return getRebalancedNamespacePartitions(ns, partitionNum, replica, oldPartitionNodes, currentNodes, balanceVer)
+}
+
+func VerifGetRebalancedPartitionsFromNameList(ns string, partitionNum int, replica int,
+	oldPartitionNodes [][]string, nodeNameList [][]string, balanceVer string) ([][]string, *cluster.CoordErr) {
+	return getRebalancedPartitionsFromNameList(ns, partitionNum, replica, oldPartitionNodes, verifToSortable(nodeNameList), balanceVer)
+}
+
+func VerifFillPartitionMapV1(ns string, partitionNum int, replica int, sortedNodes []string) [][]string {
+	return fillPartitionMapV1(ns, partitionNum, replica, SortableStrings(sortedNodes))
+}
+
+func VerifFillPartitionMapV2(ns string, partitionNum int, replica int,
+	oldPartitionNodes [][]string, sortedNodes []string) [][]string {
+	return fillPartitionMapV2(ns, partitionNum, replica, oldPartitionNodes, SortableStrings(sortedNodes))
+}
+
+func VerifGetMinMaxLoadForLeader(leaders map[string][]int, replicas map[string][]int,
+	exclude []string, nameIndexMap map[string]int) (VerifLoadItem, VerifLoadItem) {
+	min, max := getMinMaxLoadForLeader(leaders, replicas, exclude, nameIndexMap)
+	return verifFromLoadItem(min), verifFromLoadItem(max)
+}
+
+func VerifGetMinMaxLoadForReplica(replicas map[string][]int,
+	exclude []string, nameIndexMap map[string]int) (VerifLoadItem, VerifLoadItem) {
+	min, max := getMinMaxLoadForReplica(replicas, exclude, nameIndexMap)
+	return verifFromLoadItem(min), verifFromLoadItem(max)
+}
+
+// VerifMoveIfUnbalanced performs one move step; the maps and the layout are modified in place
+// exactly as the unexported function does.
+func VerifMoveIfUnbalanced(nameIndexMap map[string]int, newNodesLeaderMap map[string][]int,
+	newNodesReplicaMap map[string][]int, partitionNodes [][]string) ([][]string, bool) {
+	return moveIfUnbalanced(nameIndexMap, newNodesLeaderMap, newNodesReplicaMap, partitionNodes)
+}
+
+// VerifErrNodeUnavailable reports whether err is the refusal returned when fewer nodes than replicas exist.
+func VerifErrNodeUnavailable(err *cluster.CoordErr) bool {
+	return err == ErrNodeUnavailable
+}
